@@ -180,9 +180,14 @@ def examine(job):
         return out
     try:
         with contextlib.redirect_stdout(buf):
-            parts, complete, missing = real_description(
-                name, digits, scheme, particles, equations)
             fail = real_checkers(scheme, particles, equations, codegen)
+            if describe_it or fail is not None:
+                parts, complete, missing = real_description(
+                    name, digits, scheme, particles, equations)
+            else:
+                # the real checkers accepted; the full description (and the
+                # dst.<name> reads) is evaluated on the compared points
+                parts, complete, missing = [], True, []
     except Exception as e:
         out['harness_error'] = traceback.format_exc()[-800:]
         return out
@@ -200,6 +205,14 @@ def examine(job):
 
 # --------------------------------------------------------------------------
 # compile + run
+
+# schemes whose 2-step run on the small free-standing lattice block used here
+# diverges on the UNCHANGED tree (blow-up of the pressure iteration, not a
+# missing property): finiteness is recorded but not demanded for them
+FINITE_NOT_DEMANDED = {
+    'PCISPHScheme': 'pressure-correction iteration diverges on an unconfined '
+                    '5x5 block with dt=1e-4',
+}
 
 def init_values(particles):
     """physically harmless starting values for the properties set-up added"""
@@ -492,7 +505,17 @@ def main():
             run_job, [(n, i, a.work) for n, i in run_points]))
     for r in runs:
         R.count('run:' + r['scheme'])
-        if 'error' in r:
+        if 'error' in r and r['error'][0] == 'ModuleNotFoundError' and \
+                'scipy' in r['error'][1]:
+            R.count('run-skipped: scipy is not installed here')
+        elif r['scheme'] in FINITE_NOT_DEMANDED and (
+                r.get('nonfinite') or ('error' in r and
+                                       'Number of cells' in r['error'][1])):
+            R.count('run-diverged (monitored only): ' + r['scheme'])
+            R.note('run of %s #%d diverged on the toy lattice: %s'
+                   % (r['scheme'], r['index'],
+                      r.get('nonfinite') or r['error'][:2]))
+        elif 'error' in r:
             R.prop_fail('C12:%s:run:%s' % (r['scheme'], r['error'][0]),
                         dict(case_of(r), mode='run'),
                         'compiles and runs 2 steps',
